@@ -20,6 +20,8 @@ package agent
 //                  (real handleStreamOpen creates the relay-table entries and allocates stream ids on k)
 //           rd:k   the read loop of k reports a read error:      c.Close(); handleDisconnect(c, err)
 //           ka:k   the keepalive loop of k reports a timeout:     c.Close(); handleDisconnect(c, err)
+//           dc:k   the real Manager.Disconnect(id) while k is registered   (k leaves the table and is closed;
+//           da:k   the real Manager.DisconnectAll() (enterSleep), once      its loops report later: rd:k / ka:k)
 //         Each loop reports at most once per connection, in either order, arbitrarily late -- in
 //         particular after a newer connection was registered. (Both loops report the same dead
 //         connection in the real code: part B shows that with the real goroutines.)
@@ -158,9 +160,9 @@ func (o *c32Owner) learn(before, after c32State, k int) (nr, nl int) {
 // run is the real code that delivers the notification. If, when the notification arrives, another
 // connection is the registered one for the identity, then that connection's registration, liveness,
 // routes and relay entries must survive it.
-func c32Teardown(r *vmc.Result, nt *nsNet, own *c32Owner, conns []*peer.Connection, k int, kind string, nth int, closedAt [][]bool, rep func() any, run func()) {
+func c32Teardown(r *vmc.Result, nt *nsNet, own *c32Owner, conns []*peer.Connection, k int, kind string, nth int, closedAt [][]bool, detached []string, rep func() any, run func()) {
 	mgr := nt.agents[c32M].peerMgr
-	c32TeardownPeek(r, nt, own, conns, k, kind, nth, closedAt, rep, run, func() *peer.Connection { return mgr.GetPeer(nt.ids[c32P]) })
+	c32TeardownPeek(r, nt, own, conns, k, kind, nth, closedAt, detached, rep, run, func() *peer.Connection { return mgr.GetPeer(nt.ids[c32P]) })
 }
 
 // c32NoteAccepted records, when connection j is accepted, which older connections were already
@@ -187,7 +189,11 @@ func c32ClosedAt(n int) [][]bool {
 //                              teardown had unregistered it and j slipped in before the notification ran
 //   first-report-replaced-live k's first notification, and k was still open when j was accepted: j replaced
 //                              a live registration
-func c32TeardownPeek(r *vmc.Result, nt *nsNet, own *c32Owner, conns []*peer.Connection, k int, kind string, nth int, closedAt [][]bool, rep func() any, run func(), peek func() *peer.Connection) {
+//   first-report-after-disconnect / first-report-after-disconnectall
+//                              k's first notification, and k had been taken out of the registration table by
+//                              Manager.Disconnect(id) / Manager.DisconnectAll() (sleep) before j was registered:
+//                              the loops of k report only afterwards
+func c32TeardownPeek(r *vmc.Result, nt *nsNet, own *c32Owner, conns []*peer.Connection, k int, kind string, nth int, closedAt [][]bool, detached []string, rep func() any, run func(), peek func() *peer.Connection) {
 	cur := peek()
 	curIdx := -1
 	for i, c := range conns {
@@ -206,6 +212,8 @@ func c32TeardownPeek(r *vmc.Result, nt *nsNet, own *c32Owner, conns []*peer.Conn
 	which := "first-report-replaced-live"
 	if nth > 1 {
 		which = "second-report"
+	} else if detached != nil && detached[k] != "" {
+		which = "first-report-after-" + detached[k]
 	} else if curIdx >= 0 && closedAt[curIdx][k] {
 		which = "first-report-in-flight"
 	}
@@ -293,6 +301,8 @@ type c32World struct {
 	twinCur  int
 	mOut     []int // frames M wrote on wire k
 	closedAt [][]bool
+	detached []string // "disconnect" / "disconnectall": connection k was unregistered by that Manager method
+	daUsed   bool
 	connected map[*peer.Connection]bool
 }
 
@@ -314,7 +324,7 @@ func c32NewWorld(K int) (*c32World, error) {
 	w := &c32World{nt: nt, own: &c32Owner{routes: map[string]int{}, relays: map[string]int{}},
 		wires: make([]*peer.C32Wire, K), conns: make([]*peer.Connection, K), accepted: make([]bool, K),
 		reports: make([]int, K), rd: make([]bool, K), ka: make([]bool, K), dl: make([]bool, K), so: make([]bool, K),
-		q: make([][][]byte, K), twins: make([]*peer.Connection, K), twinCur: -1, mOut: make([]int, K), closedAt: c32ClosedAt(K)}
+		q: make([][][]byte, K), twins: make([]*peer.Connection, K), twinCur: -1, mOut: make([]int, K), closedAt: c32ClosedAt(K), detached: make([]string, K)}
 	return w, nil
 }
 
@@ -431,10 +441,30 @@ func (w *c32World) apply(r *vmc.Result, ev string, rep func() any) error {
 			w.rd[k] = true
 		}
 		w.reports[k]++
-		c32Teardown(r, nt, w.own, w.conns, k, p[0], w.reports[k], w.closedAt, rep, func() {
+		c32Teardown(r, nt, w.own, w.conns, k, p[0], w.reports[k], w.closedAt, w.detached, rep, func() {
 			c.Close()
 			m.peerMgr.VerifHandleDisconnect(c, err)
 		})
+		c32OneLive(r, nt, w.conns, w.accepted, rep)
+	case "dc", "da":
+		// the real Manager.Disconnect(id) / Manager.DisconnectAll() (enterSleep): the registered connection
+		// is removed from the table and closed; its loops report only later (rd:k / ka:k)
+		if w.registered() != k {
+			return fmt.Errorf("%s on a connection that is not registered", p[0])
+		}
+		before := c32Snapshot(nt)
+		if p[0] == "dc" {
+			if err := m.peerMgr.Disconnect(nt.ids[c32P]); err != nil {
+				return err
+			}
+			w.detached[k] = "disconnect"
+		} else {
+			m.peerMgr.DisconnectAll()
+			w.detached[k] = "disconnectall"
+			w.daUsed = true
+		}
+		after := c32Snapshot(nt)
+		r.Outcome(fmt.Sprintf("%s|unregistered=%v|closed=%v|state-kept=%v", p[0], w.registered() == -1, peer.C32IsClosed(w.conns[k]), len(after.routes) == len(before.routes) && len(after.relays) == len(before.relays)))
 		c32OneLive(r, nt, w.conns, w.accepted, rep)
 	default:
 		return fmt.Errorf("unknown event")
@@ -474,6 +504,12 @@ func (w *c32World) enabled() []string {
 	if next >= 0 {
 		evs = append(evs, fmt.Sprintf("reg:%d", next))
 	}
+	if reg >= 0 {
+		evs = append(evs, fmt.Sprintf("dc:%d", reg))
+		if !w.daUsed {
+			evs = append(evs, fmt.Sprintf("da:%d", reg))
+		}
+	}
 	return evs
 }
 
@@ -484,11 +520,11 @@ func (w *c32World) enabled() []string {
 func (w *c32World) canon() string {
 	var sb strings.Builder
 	nt := w.nt
-	fmt.Fprintf(&sb, "reg=%d twin=%d pseq=%d mseq=%d seen=%d\n", w.registered(), w.twinCur,
+	fmt.Fprintf(&sb, "reg=%d twin=%d da=%v qlink=%v pseq=%d mseq=%d seen=%d\n", w.registered(), w.twinCur, w.daUsed, nt.agents[c32M].peerMgr.GetPeer(nt.ids[c32Q]) != nil,
 		nt.agents[c32P].routeMgr.GetCurrentSequence(), nt.agents[c32M].routeMgr.GetCurrentSequence(), len(nt.agents[c32M].flooder.VerifSeenKeys()))
 	for k := range w.conns {
-		fmt.Fprintf(&sb, "c%d used=%v acc=%v closed=%v rd=%v ka=%v dl=%v so=%v q=%d\n", k, w.conns[k] != nil, w.accepted[k],
-			w.conns[k] != nil && peer.C32IsClosed(w.conns[k]), w.rd[k], w.ka[k], w.dl[k], w.so[k], len(w.q[k]))
+		fmt.Fprintf(&sb, "c%d used=%v acc=%v closed=%v rd=%v ka=%v dl=%v so=%v q=%d det=%s\n", k, w.conns[k] != nil, w.accepted[k],
+			w.conns[k] != nil && peer.C32IsClosed(w.conns[k]), w.rd[k], w.ka[k], w.dl[k], w.so[k], len(w.q[k]), w.detached[k])
 	}
 	for _, rt := range nt.routes(c32M) {
 		key := nt.routeKey(rt)
@@ -560,7 +596,7 @@ func c32EventBFS(r *vmc.Result, K int) vmc.BFSStats {
 
 func TestVerif_C32(t *testing.T) {
 	r := vmc.New("C32", "model_checking")
-	r.Rule = "part A: BFS to the fixpoint over histories of {register, deliver, relay-open, read-error report, keepalive report} for a pool of K connections of one remote identity on a real agent (real peer.Manager.registerConnection / handleDisconnect wired to the real agent handlers, routing manager and relay table); part B: all schedules up to a preemption bound of the real readLoop / keepaliveLoop / drainFrames goroutines (rewritten manager.go + connection.go) for a set of scripts (simultaneous dial+accept, keepalive failure + late read-loop report racing a fast reconnect, frames on a rejected duplicate); non-trivial = a teardown notification that arrived while another connection was registered (distinct by reporting loop, first/second report, state present) or a duplicate registration with frames pending on it; outcomes = distinct (event kind, result) classes"
+	r.Rule = "part A: BFS to the fixpoint over histories of {register, deliver, relay-open, read-error report, keepalive report, Manager.Disconnect, Manager.DisconnectAll} for a pool of K connections of one remote identity on a real agent (real peer.Manager.registerConnection / handleDisconnect wired to the real agent handlers, routing manager and relay table); part B: all schedules up to a preemption bound of the real readLoop / keepaliveLoop / drainFrames goroutines (rewritten manager.go + connection.go) for a set of scripts (simultaneous dial+accept, keepalive failure + late read-loop report racing a fast reconnect, frames on a rejected duplicate); non-trivial = a teardown notification that arrived while another connection was registered (distinct by reporting loop, first/second report, state present) or a duplicate registration with frames pending on it; outcomes = distinct (event kind, result) classes"
 	r.Assume("part A treats registerConnection, handleDisconnect and the agent handlers as atomic steps (each takes the manager lock for its map access; the callbacks run outside it: their interleaving with a concurrent registration is explored in part B)")
 	r.Assume("P's side of a connection comes up exactly when M accepts it; frames M writes to P are dropped (P's view of M is not under test)")
 	var rp c32Scenario
